@@ -284,6 +284,152 @@ def rule_heuristic(chk, prog):
     chk.extra["heuristic_paths"] = r.evaluations
 
 
+def rule_heuristic_consistent(chk, prog):
+    r = chk.rule("HEURISTIC-CONSISTENT", "the bend estimate of estimatedCostSpecific (orthogonal, previous point known), extracted symbolically as a table "
+                 "k(allowed arrival directions, heading, sign dx, sign dy), is CONSISTENT: for every state and every step (straight on or a "
+                 "right-angle turn, to any sign class the step can lead to short of the target) k(state) <= [turn] + k(successor).  The "
+                 "search closes a (vertex, heading) state when it is first expanded and never re-opens it, so an estimate that is merely "
+                 "admissible (a drop of more than the step's own bend) lets a state be closed through an expensive prefix and the cheaper "
+                 "arrival be discarded: the route found is valid but not minimal", floor=400)
+    fn = prog.fn("Avoid::estimatedCostSpecific")
+    ct = prog.enums.get("Avoid::ConnType")
+    if ct is None:
+        raise AnalysisBroken("enum Avoid::ConnType not found")
+    CT = {e["name"]: int(e["v"]) for e in ct["enumerators"]}
+    seg = Poly.var("segPen")
+    hooks = {"Avoid::ConnRef::routingType": lambda it, n, env: CT["ConnType_Orthogonal"],
+             "Avoid::ConnRef::router": lambda it, n, env: Obj("Avoid::Router", {}),
+             "Avoid::Router::routingParameter": lambda it, n, env: seg}
+    tar = Obj("Avoid::VertInf", {"point": pt("t")})
+    line = Obj("Avoid::ConnRef", {})
+    K = {}
+    for dirs in range(1, 16):
+        try:
+            rows = tree(prog, fn, [line, pt("l"), pt("c"), tar, dirs], hooks=hooks)
+        except Unsupported as e:
+            raise AnalysisBroken("estimatedCostSpecific outside the interpreter subset: %s" % e)
+        for val, descr, out in rows:
+            if out[0] != "ret":
+                continue
+            sx, sy = sign_of(val, descr, "c.x", "t.x"), sign_of(val, descr, "c.y", "t.y")
+            lx, ly = sign_of(val, descr, "l.x", "c.x"), sign_of(val, descr, "l.y", "c.y")
+            if None in (sx, sy, lx, ly):
+                continue
+            man = sx * (Poly.var("t.x") - Poly.var("c.x")) + sy * (Poly.var("t.y") - Poly.var("c.y"))
+            rest = to_poly(out[1]) - man
+            if sx == 0:
+                rest = rest.subst("t.x", Poly.var("c.x"))
+            if sy == 0:
+                rest = rest.subst("t.y", Poly.var("c.y"))
+            kq = rest.t.get((("segPen", 1),), Fraction(0))
+            if rest != kq * seg or kq.denominator != 1:
+                continue            # (HEURISTIC-FORM reports this)
+            cd = (S if ly > 0 else N if ly < 0 else 0) | (E if lx > 0 else W if lx < 0 else 0)
+            if cd in (N, E, S, W):
+                K[(dirs, cd, sx, sy)] = int(kq)
+    MV = {N: (0, -1), S: (0, 1), E: (1, 0), W: (-1, 0)}
+    REV = {N: S, S: N, E: W, W: E}
+
+    def after(sg, d):
+        # sg = sign(target - current) in one coordinate; the current point moves by d
+        if d == 0:
+            return [sg]
+        if d > 0:
+            return {1: [1, 0, -1], 0: [-1], -1: [-1]}[sg]
+        return {-1: [-1, 0, 1], 0: [1], 1: [1]}[sg]
+    for (dirs, cd, sx, sy), k in sorted(K.items()):
+        r.count()
+        bad = None
+        for d2 in (N, E, S, W):
+            if d2 == REV[cd]:
+                continue
+            dx, dy = MV[d2]
+            for sx2 in after(sx, dx):
+                for sy2 in after(sy, dy):
+                    if (sx2, sy2) == (0, 0):
+                        continue        # the target itself: reached only along an allowed arrival direction
+                    k2 = K.get((dirs, d2, sx2, sy2))
+                    if k2 is None:
+                        continue
+                    c = 0 if d2 == cd else 1
+                    if k > c + k2 and bad is None:
+                        bad = "k = %d here, but after %s %s to the sign class (%+d,%+d) the estimate is %d: a drop of more than the step's %d bend(s)" % (
+                            k, "going on" if c == 0 else "turning", NAMES[d2], sx2, sy2, k2, c)
+        inst = "arrival mask %d, heading %s, target at (%+d,%+d)" % (dirs, NAMES[cd], sx, sy)
+        (r.bad if bad else r.ok)(inst, fn.where(), bad or "")
+
+
+def rule_pass_through_at_endpoint(chk, prog):
+    from ..microai.interp import Oracle, default_obj, SetVal, Box
+    r = chk.rule("PASS-THROUGH-AT-FREE-ENDPOINT", "the connection-point branch of processEventVert interpreted as a fragment for an end point outside "
+                 "all shapes that sees to the left only, to the right only, and both ways (with and without vertical directions): the "
+                 "horizontal scan segment that survives (the right one when there is one -- the list merges the left one into it -- else "
+                 "the left one) carries, besides the end point's own vertex, an ordinary vertex AT the end point's position.  Searches do "
+                 "not pass THROUGH end-point vertices of other connectors, so without it every other connector is barred from that "
+                 "grid point and detours", floor=6)
+    fn = prog.fn("Avoid::processEventVert")
+    ev_types = {}
+    for e in prog.enums.values():
+        nm_ = [c["name"] for c in e.get("enumerators", [])]
+        if "SegOpen" in nm_ and "ConnPoint" in nm_ and str(e.get("q", "")).startswith("Avoid::"):
+            ev_types = {c["name"]: int(c["v"]) for c in e["enumerators"]}
+    br = [n for n in fn.nodes() if n.get("k") == "IfStmt" and "ConnPoint" in norm(n.get("cond")) and "pass" not in norm(n.get("cond"))
+          and any((c.get("cname") or "").endswith("Node::firstPointAbove") for c in walk(n.get("then") or {}))]
+    vd = [d for d in fn.nodes() if d.get("k") == "VarDecl" and "Node *" in d.get("t", "") and not d.get("parm")]
+    if len(br) != 1 or not vd or "ConnPoint" not in ev_types or len(fn.params) != 5:
+        raise AnalysisBroken("processEventVert: connection-point branch / locals not found")
+    F = Fraction
+    UP, DOWN, LEFT, RIGHT = 1, 2, 4, 8
+    for dirs in (LEFT, RIGHT, LEFT | RIGHT, LEFT | UP, RIGHT | DOWN, LEFT | RIGHT | UP | DOWN):
+        r.count()
+        made = []
+
+        def ins_hook(it, nd, env):
+            seg = it.ev(call_args(nd)[0], env)
+            made.append(seg)
+            return seg
+
+        def seg_ctor(it, o, args, env):
+            a = [it.ev(x, env) for x in args]
+            o.f["vertInfs"] = SetVal()
+            if len(a) >= 4:
+                o.f["begin"], o.f["finish"], o.f["pos"] = a[0], a[1], a[2]
+            else:
+                o.f["begin"], o.f["finish"], o.f["pos"] = a[0], a[0], a[1]
+
+        def vi_ctor(it_, o, args, env):
+            o.f["point"] = it_.ev(args[2], env)
+        cp = default_obj(prog, "Avoid::Point", {"x": F(50), "y": F(70)})
+        cv = default_obj(prog, "Avoid::VertInf", {"point": cp, "visDirections": dirs})
+        node = default_obj(prog, "Avoid::Node", {"c": cv})
+        evt = default_obj(prog, "Avoid::Event", {"type": ev_types["ConnPoint"], "v": node, "pos": F(70)})
+        hooks = {"Avoid::Node::firstPointAbove": lambda it, nd, env: F(0), "Avoid::Node::firstPointBelow": lambda it, nd, env: F(100),
+                 "Avoid::Node::isInsideShape": lambda it, nd, env: False, "Avoid::SegmentListWrapper::insert": ins_hook}
+        it = Interp(prog, Oracle([]), hooks=hooks)
+        it.ctor_hooks = {"Avoid::LineSegment": seg_ctor, "Avoid::VertInf": vi_ctor}
+        env = {fn.params[0]["did"]: Box(default_obj(prog, "Avoid::Router", {})), fn.params[2]["did"]: Box(default_obj(prog, "Avoid::SegmentListWrapper", {})),
+               fn.params[3]["did"]: Box(evt), fn.params[4]["did"]: Box(2), vd[0]["did"]: Box(node)}
+        bad = None
+        try:
+            it.ex(br[0]["then"], env)
+        except Unsupported as e:
+            raise AnalysisBroken("connection-point branch of processEventVert outside the interpreter subset: %s" % e)
+        except AssertFail as e:
+            bad = "assertion fails: %s" % e
+        if not bad:
+            right = [s_ for s_ in made if s_.f["begin"] == F(50) and s_.f["finish"] == F(100)]
+            left = [s_ for s_ in made if s_.f["begin"] == F(0) and s_.f["finish"] == F(50)]
+            if bool(right) != bool(dirs & RIGHT) or bool(left) != bool(dirs & LEFT):
+                bad = "scan segments %s for visibility mask %d" % ([(str(s_.f["begin"]), str(s_.f["finish"])) for s_ in made], dirs)
+            else:
+                keep = right[0] if right else left[0]
+                through = [v_ for v_ in keep.f["vertInfs"].items if v_ is not cv and v_.f["point"].f["x"] == F(50) and v_.f["point"].f["y"] == F(70)]
+                if not through:
+                    bad = "the %s scan segment of the end point gets no pass-through vertex at the end point's position" % ("right" if right else "left")
+        names = "+".join(n_ for b_, n_ in ((LEFT, "left"), (RIGHT, "right"), (UP, "up"), (DOWN, "down")) if dirs & b_)
+        (r.bad if bad else r.ok)("end point seeing %s" % names, fn.loc(br[0]), bad or "")
+
+
 def rule_turn_prune(chk, prog):
     """In AStarPathPrivate::search the orthogonal 'only turn beside a shape edge / end point' pruning:
     every `continue` that skips an edge because of orthogVisPropFlags must be under a condition that also
@@ -749,6 +895,8 @@ def run(chk):
     chk.guard(rule_bends, chk, prog)
     chk.guard(rule_dir_tables, chk, prog)
     chk.guard(rule_heuristic, chk, prog)
+    chk.guard(rule_heuristic_consistent, chk, prog)
+    chk.guard(rule_pass_through_at_endpoint, chk, prog)
     chk.guard(rule_turn_prune, chk, prog)
     chk.guard(rule_turn_prune_mirror, chk, prog)
     chk.guard(rule_flags_mirror, chk, prog)
